@@ -29,8 +29,13 @@ type Section struct {
 	Exhaustive  bool
 	Requested   int64 // rapid checks requested (0 for plain tests)
 	fps         map[uint64]struct{}
+	FPCapHit    bool
 	sampleSeen  int64
 }
+
+// fpCap bounds the fingerprints kept per section and process (memory of very long thorough runs): beyond it the
+// distinct count is a lower bound and the evidence says so.
+const fpCap = 400000
 
 var (
 	secMu    sync.Mutex
@@ -57,7 +62,11 @@ func (s *Section) Case(nontrivial bool, fp uint64, classes ...string) {
 	s.Evaluations++
 	if nontrivial {
 		s.NonTrivial++
-		s.fps[fp] = struct{}{}
+		if len(s.fps) < fpCap {
+			s.fps[fp] = struct{}{}
+		} else if _, ok := s.fps[fp]; !ok {
+			s.FPCapHit = true // the distinct count reported is then a lower bound
+		}
 	}
 	for _, c := range classes {
 		if c != "" {
@@ -138,6 +147,7 @@ type sectionOut struct {
 	Samples     []any            `json:"samples,omitempty"`
 	Exhaustive  bool             `json:"exhaustive,omitempty"`
 	Requested   int64            `json:"requested,omitempty"`
+	FPCapHit    bool             `json:"fingerprint_cap_hit,omitempty"`
 }
 
 // Flush writes the statistics to $VERIF_STATS_OUT (JSON) and the fingerprints
@@ -160,7 +170,7 @@ func Flush() {
 		s := sections[n]
 		s.mu.Lock()
 		all = append(all, sectionOut{Name: n, Evaluations: s.Evaluations, NonTrivial: s.NonTrivial, Distinct: int64(len(s.fps)),
-			Classes: s.Classes, Excluded: s.Excluded, Samples: s.Samples, Exhaustive: s.Exhaustive, Requested: s.Requested})
+			Classes: s.Classes, Excluded: s.Excluded, Samples: s.Samples, Exhaustive: s.Exhaustive, Requested: s.Requested, FPCapHit: s.FPCapHit})
 		if fpf != nil {
 			tag := FP("section", n)
 			var b [8]byte
